@@ -192,5 +192,12 @@ func (c *connection) RouteReply(msg Message) bool {
 		return e.replies.route(msg.SystemBytes(), replyResult{err: &RejectError{Reason: header[3]}})
 	}
 
-	return e.replies.route(msg.SystemBytes(), replyResult{msg: msg})
+	// A reply completes only a transaction of its own kind: a data secondary a data transaction, a
+	// control response a control transaction. Colliding System Bytes across the two are a miss.
+	kind := waiterControl
+	if _, isData := msg.(*DataMessage); isData {
+		kind = waiterData
+	}
+
+	return e.replies.routeKind(msg.SystemBytes(), replyResult{msg: msg}, kind)
 }
